@@ -99,7 +99,7 @@ def WFA : Args → Prop
   | .cons e r => WF e ∧ WFA r
 end
 
-theorem litOk_toks (n : String) (h : LitOk n = true) : toks (litPiecesT n) = [.lit n] := by
+theorem litOk_toks (n : Lit) (h : LitOk n = true) : toks (litPiecesT n) = [.lit n] := by
   unfold LitOk at h
   unfold litPiecesT
   split at h
